@@ -62,7 +62,7 @@ m = {
  "version": 1,
  "setup_cmd": "./check build",
  "hooks": {"guard": "QXMPP_VERIF",
-           "enable": "no source hook was needed: the simulator uses existing seams (friend class TestClient, public QAbstractEventDispatcher, QSslSocket virtuals, public QXmppIncomingClient/QXmppPasswordChecker/QXmppTrustStorage interfaces) and link-time interposition of non-virtual Qt/libc symbols (clock_gettime, QRandomGenerator::_fillRange, QUuid::createUuid, QSslSocket::isEncrypted/startClientEncryption/flush, QUdpSocket I/O) inside the qxsim executable; /verif/CMakeLists.txt passes -DQXMPP_VERIF to the static sanitised build of /repo's current tree but no source line depends on it",
+           "enable": "no source hook was needed: the simulator uses existing seams (friend class TestClient, public QAbstractEventDispatcher, QSslSocket virtuals, public QXmppIncomingClient/QXmppPasswordChecker/QXmppTrustStorage interfaces) and link-time interposition of non-virtual Qt/libc symbols (clock_gettime, QRandomGenerator::_fillRange, QUuid::createUuid, QSslSocket::isEncrypted/startClientEncryption/connectToHostEncrypted/flush, QUdpSocket I/O, QDnsLookup) inside the qxsim executable; /verif/CMakeLists.txt passes -DQXMPP_VERIF to the static sanitised build of /repo's current tree but no source line depends on it",
            "baseline_off_cmd": "cmake --build /repo/_build -j16 && ctest --test-dir /repo/_build -j1 --timeout 900",
            "source_commits": [], "add_only": True},
  "engines": [{"name": "qxsim", "path": "/verif/build/qxsim", "serves_properties": sorted(CLAIMED.keys()),
